@@ -585,7 +585,33 @@ func (w *world) exec(op string) string {
 		if !w.openMapper() {
 			return "chunks openerr - " + d
 		}
-		return "chunks " + loadAll(w.m, w.readStr) + " " + d
+		ld := loadAll(w.m, w.readStr)
+		w.refreshStartup()
+		return "chunks " + ld + " " + d
+	case "crash":
+		if len(t) != 4 || (t[2] != "t" && t[2] != "x" && t[2] != "z") {
+			return "bad-op"
+		}
+		seq, e1 := strconv.ParseUint(t[1], 10, 31)
+		arg, e2 := strconv.ParseInt(t[3], 10, 64)
+		if e1 != nil || e2 != nil || arg < 0 {
+			return "bad-op"
+		}
+		d := w.drain()
+		if err := w.m.Close(); err != nil {
+			return "crash - closeerr - " + d
+		}
+		w.m = nil
+		before := seqList(listSeqs(w.dir))
+		if !damage(filepath.Join(w.dir, fmt.Sprintf("%06d", seq)), t[2], arg) {
+			return "crash " + before + " ioerr - " + d
+		}
+		if !w.openMapper() {
+			return "crash " + before + " openerr - " + d
+		}
+		ld := loadAll(w.m, w.readStr)
+		w.refreshStartup()
+		return "crash " + before + " " + ld + " " + d
 	case "torn":
 		if len(t) != 2 {
 			return "bad-op"
@@ -597,6 +623,39 @@ func (w *world) exec(op string) string {
 		return "torn " + w.torn(cut)
 	}
 	return "bad-op"
+}
+
+// refreshStartup: after the load (which may have deleted files) only the files still there are "found at start-up"
+// (not preallocated, mapped with their own length); a number freed by the repair may be cut again by this mapper.
+func (w *world) refreshStartup() {
+	w.startup = map[int]bool{}
+	for _, s := range listSeqs(w.dir) {
+		w.startup[s] = true
+	}
+}
+
+// damage: what a crash leaves of one file. t: torn at arg; x: the byte at arg inverted; z: zeros from arg on.
+// A missing file or a position behind the end changes nothing.
+func damage(path, kind string, arg int64) bool {
+	b, err := os.ReadFile(path)
+	if err != nil {
+		return os.IsNotExist(err)
+	}
+	switch kind {
+	case "t":
+		if arg < int64(len(b)) {
+			b = b[:arg]
+		}
+	case "x":
+		if arg < int64(len(b)) {
+			b[arg] ^= 0xff
+		}
+	case "z":
+		for i := arg; i < int64(len(b)); i++ {
+			b[i] = 0
+		}
+	}
+	return os.WriteFile(path, b, 0o666) == nil
 }
 
 func b2i(b bool) int {
@@ -925,6 +984,281 @@ func genCase(c *h.Ctx, id int) {
 	c.NonTrivial(strings.Join(key, ";"))
 }
 
+// ---------------------------------------------------------------- crash histories
+
+// plainChunk: a chunk the head could write (inside the judged statement), small enough to keep cases cheap.
+func plainChunk(c *h.Ctx, r *h.Rng) string {
+	sref := uint64(1 + r.Intn(50))
+	mint := r.Range(1, 1<<41)
+	maxt := mint + r.Range(0, 1<<20)
+	enc := 1
+	if r.Chance(20) {
+		enc = 1 + r.Intn(6)
+	}
+	var data string
+	switch k := r.Intn(10); {
+	case k < 5:
+		data = xorChunkHex(r)
+	case k < 9:
+		data = fmt.Sprintf("g%d:%d", r.Intn(1<<20), h.Pick(r, []int{4, 5, 100, 127, 128, 129, 1000, 3000})+r.Intn(3))
+	default:
+		data = fmt.Sprintf("g%d:%d", r.Intn(1<<20), 6000+r.Intn(20000))
+	}
+	c.Count("w:plain")
+	return fmt.Sprintf("w %d %d %d %d %d %s", sref, mint, maxt, enc, b2i(r.Chance(25)), data)
+}
+
+// recBounds: start and end offset of every record this run wrote into file seq (from the refs handed out).
+func (w *world) recBounds(seq int) (starts, ends []int64) {
+	for _, ref := range w.refs {
+		s, o := ref.Unpack()
+		if s != seq {
+			continue
+		}
+		n := int64(w.rlens[ref])
+		vs := int64(1)
+		for x := n; x >= 128; x >>= 7 {
+			vs++
+		}
+		starts = append(starts, int64(o))
+		ends = append(ends, int64(o)+25+vs+n+4)
+	}
+	return starts, ends
+}
+
+// pickDamage: kind and position of the damage in file seq. class: 0 header, 1 inside a record (always detected),
+// 2 CRC field, 3 record boundary, 4 padding / preallocation end, 5 anywhere.
+func (w *world) pickDamage(r *h.Rng, seq, class int) (string, int64) {
+	starts, ends := w.recBounds(seq)
+	if len(starts) == 0 && class >= 1 && class <= 3 {
+		class = 5
+	}
+	kind := h.Pick(r, []string{"t", "t", "t", "x", "z"})
+	i := 0
+	if len(starts) > 0 {
+		i = r.Intn(len(starts))
+		if r.Chance(50) {
+			i = len(starts) - 1
+		}
+	}
+	switch class {
+	case 0:
+		return kind, int64(r.Intn(12))
+	case 1:
+		// strictly inside record i, behind its first 8 bytes: a torn, inverted or zeroed byte there is always noticed
+		lo, hi := starts[i]+8, ends[i]-1
+		pos := lo + r.Range(0, hi-lo)
+		switch r.Intn(5) {
+		case 0:
+			pos = starts[i] + h.PickI64(r, []int64{8, 9, 16, 23, 24, 25, 26, 27, 33, 34, 35})
+		case 1:
+			pos = (starts[i] + ends[i]) / 2
+		}
+		if pos > hi {
+			pos = hi
+		}
+		if kind == "z" {
+			kind = "t"
+		}
+		return kind, pos
+	case 2:
+		return kind, ends[i] - 1 - int64(r.Intn(4))
+	case 3:
+		if r.Chance(50) {
+			return kind, starts[i] + r.Range(0, 1)
+		}
+		return kind, ends[i] + r.Range(0, 1)
+	case 4:
+		last := int64(8)
+		if len(ends) > 0 {
+			last = ends[len(ends)-1]
+		}
+		return kind, h.PickI64(r, []int64{last + 1, last + 33, last + 34, last + 35, last + 1000, 131071, 131072, 131073})
+	}
+	return kind, int64(r.Intn(132000))
+}
+
+// genCrashCase: write chunks into several files, truncate away 0..all-but-one of them, crash with damage in the first
+// retained / a middle / the newest file, repair the way the head does, keep writing across a file cut, read every
+// reference back, restart and iterate. shape 0: only the newest file is retained and torn inside a record; shape 1:
+// several files retained, the first one damaged inside a record; otherwise random.
+func genCrashCase(c *h.Ctx, id, shape int) {
+	r := c.Rng
+	w := newWorld(c)
+	defer w.cleanup()
+	c.Case(fmt.Sprintf("k%d", id))
+	var key []string
+	do := func(op string) string {
+		var out string
+		pan, v := h.Try(func() { out = w.exec(op) })
+		if pan {
+			out = fmt.Sprintf("panic %s", strings.ReplaceAll(strings.ReplaceAll(fmt.Sprint(v), "\n", " "), "\t", " "))
+			if len(out) > 120 {
+				out = out[:120]
+			}
+		}
+		c.Op(op, out)
+		key = append(key, op)
+		return out
+	}
+	mode, q := "s", 0
+	switch k := r.Intn(10); {
+	case k < 5:
+	case k < 8:
+		mode, q = "g", h.Pick(r, []int{1, 2, 3, 8})
+	default:
+		mode, q = "f", h.Pick(r, []int{1, 4, 1000})
+	}
+	c.Count("crashmode:" + mode)
+	do(fmt.Sprintf("open %d %s", q, mode))
+	write := func() {
+		if mode == "g" && w.queued >= w.q {
+			do("drain")
+		}
+		do(plainChunk(c, r))
+		if mode == "g" && r.Chance(40) {
+			do(h.Pick(r, []string{"wr", "fin", "drain"}))
+		}
+	}
+	rounds := 1
+	if r.Chance(30) {
+		rounds = 2
+	}
+	for round := 0; round < rounds && !w.dead; round++ {
+		// files
+		nf := 2 + r.Intn(3)
+		if shape >= 2 && r.Chance(15) {
+			nf = 1
+		}
+		for f := 0; f < nf; f++ {
+			if f > 0 || r.Chance(50) {
+				do("cut")
+			}
+			for j := 0; j < 1+r.Intn(3); j++ {
+				write()
+			}
+		}
+		do("drain")
+		seqs := listSeqs(w.dir)
+		if len(seqs) == 0 {
+			break
+		}
+		newest := seqs[len(seqs)-1]
+		// truncation: drop none .. all but the newest
+		drop := r.Intn(len(seqs))
+		switch {
+		case shape == 0 || (shape >= 2 && r.Chance(40)):
+			drop = len(seqs) - 1
+		case shape == 1:
+			drop = 0
+			if len(seqs) > 2 {
+				drop = 1 + r.Intn(len(seqs)-2)
+			}
+			if seqs[0] == 1 && drop == 0 && len(seqs) > 1 {
+				drop = 1
+			}
+		}
+		if drop > 0 {
+			do(fmt.Sprintf("trunc %d", seqs[drop-1]+1))
+			c.Count(fmt.Sprintf("crash:dropped-%d-of-%d", drop, len(seqs)))
+		} else if r.Chance(30) {
+			do(fmt.Sprintf("trunc %d", h.Pick(r, []int{0, seqs[0]})))
+		}
+		if shape >= 2 && r.Chance(25) {
+			// the truncation asked for a cut: one more chunk opens file newest+1
+			write()
+			do("drain")
+		}
+		if r.Chance(30) {
+			do("files")
+		}
+		seqs = listSeqs(w.dir)
+		if len(seqs) == 0 {
+			break
+		}
+		newest = seqs[len(seqs)-1]
+		// which file, what damage
+		target, class := newest, 1
+		switch {
+		case shape == 0:
+		case shape == 1:
+			target = seqs[0]
+		default:
+			switch k := r.Intn(10); {
+			case k < 4:
+				target = seqs[0]
+			case k < 6:
+				target = seqs[r.Intn(len(seqs))]
+			}
+			class = h.Pick(r, []int{0, 1, 1, 1, 2, 2, 3, 3, 4, 5})
+		}
+		kind, pos := w.pickDamage(r, target, class)
+		where := "middle"
+		switch {
+		case len(seqs) == 1:
+			where = "only"
+		case target == seqs[0]:
+			where = "first"
+		case target == newest:
+			where = "newest"
+		}
+		out := do(fmt.Sprintf("crash %d %s %d", target, kind, pos))
+		c.Count("crash:" + where)
+		c.Count(fmt.Sprintf("crash:class-%d-%s", class, kind))
+		switch {
+		case strings.Contains(out, " repaired:"):
+			c.Count("crash:repaired")
+			if len(listSeqs(w.dir)) == 0 && seqs[0] > 1 {
+				c.Count("crash:repair-emptied-dir-first-file>1")
+			}
+		case strings.Contains(out, " openerr "):
+			c.Count("crash:openerr")
+		case strings.Contains(out, " clean "):
+			c.Count("crash:clean")
+		}
+		if w.dead {
+			break
+		}
+		do("st")
+		// keep writing, across a file cut
+		from := len(w.refs)
+		nw := 2 + r.Intn(3)
+		cutAt := 1 + r.Intn(nw-1)
+		for j := 0; j < nw; j++ {
+			if j == cutAt {
+				do("cut")
+			}
+			write()
+		}
+		if r.Chance(70) {
+			do("drain")
+		}
+		for _, ref := range w.refs[from:] {
+			do("r " + refStr(ref))
+		}
+		if r.Chance(40) {
+			do("files")
+		}
+		do("st")
+		do("restart")
+		for _, ref := range w.refs[from:] {
+			if r.Chance(60) {
+				do("r " + refStr(ref))
+			}
+		}
+		if r.Chance(50) {
+			write()
+			do("drain")
+		}
+	}
+	if !w.dead {
+		do("files")
+		do("restart")
+		do("st")
+	}
+	c.NonTrivial(strings.Join(key, ";"))
+}
+
 func genPosCase(c *h.Ctx, id int) {
 	r := c.Rng
 	c.Case(fmt.Sprintf("p%d", id))
@@ -967,10 +1301,16 @@ func main() {
 		}
 		return
 	}
+	crashCases := 0
 	for i := 0; i < c.N; i++ {
-		if i%10 == 9 {
+		switch {
+		case i%10 == 9:
 			genPosCase(c, i)
-		} else {
+		case i%5 == 2:
+			// 8 of 40: crash histories (Truncate, damage in the live directory, repair, further writes)
+			genCrashCase(c, i, crashCases%4)
+			crashCases++
+		default:
 			genCase(c, i)
 		}
 	}
